@@ -62,7 +62,27 @@ def pr1(ctx, R):
               ("tdms.TdmsFile.__init__", "self._groups"), ("tdms.TdmsFile.__init__", "self._properties"),
               ("tdms.TdmsFile._read_file", "group_properties"), ("tdms.TdmsFile._read_file", "group_channels")]
     for q, target in checks:
-        fi = prog.func(q)
+        try:
+            fi = prog.func(q)
+        except AnchorMissing:
+            if not q.endswith(".__init__"):
+                raise
+            # a record class without a written constructor (dataclass): the field's default factory is what initialises it
+            ci = prog.cls(q.rsplit(".", 1)[0])
+            decl = [n for n in ci.node.body if isinstance(n, ast.AnnAssign) and isinstance(n.target, ast.Name) and "self." + n.target.id == target]
+            if not decl:
+                R.note("%s no longer initialises %s" % (q, target))
+                continue
+            v = decl[0].value
+            fac = next((k.value for k in v.keywords if k.arg == "default_factory"), None) if isinstance(v, ast.Call) and call_name(v) in ("field", "dataclasses.field") else None
+            where = "%s:%d" % (ci.module.relpath, decl[0].lineno)
+            if fac is not None and dotted(fac) in ORDERED + ("collections.OrderedDict",):
+                R.ok("%s::%s" % (q, target), where, "insertion-ordered mapping (field default factory)")
+            elif fac is not None:
+                R.violation("%s::%s" % (q, target), where, "%s is initialised by `%s`, which does not keep insertion order / uniqueness by key" % (target, unparse(fac)))
+            else:
+                R.unrecognised("%s::%s" % (q, target), where, "how the field is initialised was not recognised (`%s`)" % unparse(decl[0])[:60])
+            continue
         ds = [n for n in walk_body(fi.node) if isinstance(n, ast.Assign) and any(dotted(t) == target for t in n.targets)]
         if not ds:
             R.note("%s no longer initialises %s" % (q, target))
@@ -953,13 +973,35 @@ def cs2(ctx, R):
         if w[0] == "phi":
             return ("phi", w[1], norm_window(w[2]), norm_window(w[3]))
         return w
+    # the two windowing functions, by name or - when they were renamed or turned into methods - by what they do: apply a window to
+    # <chunk>.data and deal with <chunk>.scaler_data
+    def windowers():
+        out = []
+        for f in sorted(prog.functions.values(), key=lambda f: f.qual):
+            if any(isinstance(n, ast.Subscript) and isinstance(n.value, ast.Attribute) and n.value.attr == "data" for n in ast.walk(f.node)) \
+                    and any(isinstance(n, ast.Attribute) and n.attr == "scaler_data" for n in ast.walk(f.node)):
+                out.append(f)
+        return out
+    named = []
     for q in ("reader._trim_channel_chunk", "channel_data.slice_raw_data"):
-        fi = prog.func(q)
-        v = Sym(prog, fi, None).function_value()
+        try:
+            named.append(prog.func(q))
+        except AnchorMissing:
+            named.append(None)
+    spare = [f for f in windowers() if not any(f is g for g in named)]
+    for i, fi in enumerate(named):
+        if fi is None and spare:
+            named[i] = spare.pop(0)
+    if any(f is None for f in named):
+        R.unrecognised("windowing functions", prog.module("reader").relpath, "the functions that trim a channel chunk / slice raw data were not recognised")
+    for fi in [f for f in named if f is not None]:
+        q = fi.qual
+        v = Sym(prog, fi, fi.cls).function_value()
         apps = [(x[1], x[2]) for x, _b in find(v, ("sub", W(), W())) if is_window(x[2])]
         wins = {alpha(subst(norm_window(w), base, ("<x>",))) for base, w in apps}
-        on_data = [b for b, w in apps if b[0] == "attr" and b[2] == "data"]
-        on_scalers = [b for b, w in apps if not (b[0] == "attr" and b[2] == "data")]
+        is_data = lambda b: (b[0] == "attr" and b[2] == "data") or b == ("self", "data")
+        on_data = [b for b, w in apps if is_data(b)]
+        on_scalers = [b for b, w in apps if not is_data(b)]
         if not on_data or not on_scalers:
             if find(v, ("loop", W(), W())) or v[0] == "opaque":
                 R.undecided(q, fi.where(), "windowing of %s not in normal form" % ("the scaler arrays" if on_data else "the data"))
@@ -992,7 +1034,18 @@ def nt1(ctx, R):
             fi = find_path_encoder(prog)          # wherever the encoder lives today
             q = fi.qual
         else:
-            fi = prog.func(q)
+            try:
+                fi = prog.func(q)
+            except AnchorMissing:
+                # renamed or turned into a method: the one function of that module which has the parameters in question
+                cands = [f for f in prog.functions.values() if f.module.name == q.split(".")[0] and set(params) <= set(f.params)
+                         and f.name.lstrip("_") not in ("init__",)]
+                if len(cands) != 1:
+                    R.unrecognised("%s::%s" % (q, "/".join(sorted(params))), prog.module(q.split(".")[0]).relpath,
+                                   "the function is not where it was and no single function of the module has these parameters")
+                    continue
+                fi = cands[0]
+                q = fi.qual
         for p, why in sorted(params.items()):
             if p not in fi.params:
                 raise AnchorMissing("%s parameter %s" % (q, p))
